@@ -112,11 +112,11 @@ struct Replicas {
     std::vector<std::string> not_built;
     std::string dir;
     Rep* by_label(const std::string& l) const { for (auto r : all) if (r->label == l) return r; return nullptr; }
-    bool load(const std::string& dir_, std::string& err, const std::vector<std::string>& which = {"A", "A2", "As", "B", "C", "G"}) {
+    bool load(const std::string& dir_, std::string& err, const std::vector<std::string>& which = {"A", "A2", "As", "B", "C", "D", "G"}) {
         dir = dir_;
         for (auto& n : which) {
             Rep* r = new Rep();
-            if (n == "G" && access((dir + "/libjp_G.so").c_str(), R_OK) != 0) { delete r; continue; }      // the g++ replica exists in the plain flavour only
+            if ((n == "G" || n == "D") && access((dir + "/libjp_" + n + ".so").c_str(), R_OK) != 0) { delete r; continue; }      // the g++ replica exists in the plain flavour only
             if (n != "A" && n != "A2" && access((dir + "/libjp_" + n + ".so").c_str(), R_OK) != 0) { delete r; not_built.push_back(n); continue; }   // configuration that does not build from this tree (failed_<n>.txt says why)
             if (!r->load(dir, n, err)) { err = n + ": " + err; return false; }
             if (n == "A") { r->want_dispatch = 1; r->label = "A/bmi2-adx"; }
@@ -124,6 +124,7 @@ struct Replicas {
             else if (n == "As") r->label = "As/static-bmi2";
             else if (n == "B") r->label = "B/portable64";
             else if (n == "C") r->label = "C/portable32";
+            else if (n == "D") r->label = "D/portable64-O0";
             else if (n == "G") r->label = "G/g++-asm";   // run-time dispatch left exactly as the library's own load-time initialiser set it: the harness never writes this replica's table
             r->apply_dispatch();
             all.push_back(r);
